@@ -7,9 +7,12 @@
 //	mutex gen <n>             seeded generator of op lines (VERIF_SEED)
 //	mutex oracle <n>          the property's clauses evaluated on the implementation alone
 //	mutex facts <repo>        go/ast synchronisation skeleton of Lock/Unlock/runGo/waitForTasks as Lean data
-//	mutex gentasks <n>        task cases (tasks.go): the adversarial family, then n random ones
+//	mutex gentasks <n>        task cases (tasks.go): the adversarial families, then n random ones (every fourth a
+//	                          `ptasks` case: tasks created through the real `pip:run --rlock=… --wlock=…` command line)
 //	mutex tasksoracle <n>     task cases evaluated on the implementation alone
 //
+// Ops: locks, sched, stress, overlap, rounds, parties (holders inside, waiters observed parked in Lock, then holders
+// compatible with everybody must get inside), tasks, ptasks.
 // Line protocol: see /verif/lean/Driver/Mutex.lean.  Every concurrency case runs against a fresh
 // SharedMutex; holders are goroutines; the build tag `verif` turns
 // verifhook.Yield("mutex.acquire") (called by SharedMutex.Lock before every per-name acquisition)
@@ -221,6 +224,7 @@ type caseRT struct {
 	occ      map[string]*int32 // in-process occupancy oracle
 	exclBad  atomic.Value      // first name on which the occupancy oracle saw a conflict
 	noise    bool              // random Gosched at yield points (stress)
+	noAcq    bool              // the per-name acquisition yield point never parks (parties)
 	wg       sync.WaitGroup
 }
 
@@ -244,6 +248,9 @@ func installHook() {
 			return
 		}
 		h := v.(*holderRT)
+		if c.noAcq {
+			return
+		}
 		k := h.yield
 		h.yield++
 		if c.noise {
@@ -356,6 +363,19 @@ func (c *caseRT) start(iters int, inside func(h *holderRT) func()) {
 			in = inside(h)
 		}
 		go c.holderMain(h, iters, in)
+	}
+}
+
+// startSome starts the holders lo..hi-1 (one Lock/Unlock each)
+func (c *caseRT) startSome(lo, hi int) {
+	c.mu.Lock()
+	for _, h := range c.holders[lo:hi] {
+		h.running = true
+	}
+	c.mu.Unlock()
+	for _, h := range c.holders[lo:hi] {
+		c.wg.Add(1)
+		go c.holderMain(h, 1, nil)
 	}
 }
 
@@ -602,6 +622,104 @@ func opRounds(maps [][]row) (string, string) {
 	return c.finish(), c.traceLine()
 }
 
+// after the first failed `parties` case of a process later ones wait only this long for the acquisition
+const shortPartyWait = 3 * time.Second
+
+var partyFails int32
+
+// opParties: the clause "holders of disjoint or read-only-overlapping maps are not serialised against each
+// other by the lock" with more than two parties.  The first nA holders (pairwise compatible) are started and
+// stay inside their critical sections.  Then the next nB holders are started: each conflicts with a holder that
+// is inside, so each ends up parked inside SharedMutex.Lock - which is OBSERVED in one stop-the-world snapshot
+// of the runtime's wait reasons (`settle`), never inferred from elapsed time.  Then the remaining holders are
+// started: each is compatible with EVERY other holder of the case (disjoint names, or names that everybody only
+// reads), so each must get inside its critical section while the first nA still hold and the nB waiters are
+// still parked.  The harness waits generously (20 s; 3 s after the first failure of the process) for that; a
+// holder that does not get inside is the result `serialised:<holder>~<wait reason>`.  Afterwards everything is
+// released and everybody must finish.
+func opParties(maps [][]row, nA, nB int) (string, string) {
+	c := newCase(maps)
+	c.noAcq = true
+	var out []string
+	done := func() (string, string) {
+		out = append(out, c.finish())
+		return strings.Join(out, " "), c.traceLine()
+	}
+	inside := func(lo, hi int) bool {
+		c.mu.Lock()
+		defer c.mu.Unlock()
+		for _, h := range c.holders[lo:hi] {
+			if !h.parked {
+				return false
+			}
+		}
+		return true
+	}
+	// 1. the holders
+	c.startSome(0, nA)
+	if _, ok := c.settle(); !ok || !inside(0, nA) {
+		out = append(out, "first-holders-not-inside")
+		return done()
+	}
+	// 2. the waiters: all parked inside Lock (none of them inside its critical section)
+	c.startSome(nA, nA+nB)
+	if _, ok := c.settle(); !ok {
+		out = append(out, "waiters!timeout")
+		return done()
+	}
+	c.mu.Lock()
+	for _, h := range c.holders[nA : nA+nB] {
+		if h.parked || h.finished {
+			out = append(out, fmt.Sprintf("waiter-not-blocked:%d", h.idx))
+		}
+	}
+	c.mu.Unlock()
+	if len(out) > 0 {
+		return done()
+	}
+	// 3. the compatible late-comers must get inside now
+	c.startSome(nA+nB, len(maps))
+	wd := watchdog
+	if atomic.LoadInt32(&partyFails) > 0 {
+		wd = shortPartyWait
+	}
+	deadline := time.Now().Add(wd)
+	for spin := 0; !inside(nA+nB, len(maps)) && time.Now().Before(deadline); spin++ {
+		if spin < 50 {
+			runtime.Gosched()
+		} else {
+			time.Sleep(50 * time.Microsecond)
+		}
+	}
+	st := goroutineStates()
+	c.mu.Lock()
+	for _, h := range c.holders[nA+nB:] {
+		if !h.parked {
+			k := blockedKind(st[h.goid])
+			if k == "" {
+				k = "?"
+			}
+			out = append(out, fmt.Sprintf("serialised:%d~%s", h.idx, k))
+		}
+	}
+	// the situation is still the one the clause is about: the first holders inside, the waiters parked in Lock
+	for _, h := range c.holders[:nA] {
+		if !h.parked {
+			out = append(out, fmt.Sprintf("holder-left:%d", h.idx))
+		}
+	}
+	for _, h := range c.holders[nA : nA+nB] {
+		if h.parked || h.finished || blockedKind(st[h.goid]) == "" {
+			out = append(out, fmt.Sprintf("waiter-moved:%d", h.idx))
+		}
+	}
+	c.mu.Unlock()
+	if len(out) > 0 {
+		atomic.AddInt32(&partyFails, 1)
+	}
+	return done()
+}
+
 // ---------------------------------------------------------------------------------------------
 // pipc.Run's lock-list parsing, reached through the exported command callback
 
@@ -721,11 +839,14 @@ func runOp(line string) (res string, trace string) {
 			return "bad-op", ""
 		}
 		return opLocks(hx.MustDec(head[1]), hx.MustDec(head[2]), hx.MustDec(head[3])), ""
-	case "tasks":
+	case "tasks", "ptasks":
 		if len(head) != 2 || len(parts) != 2 {
 			return "bad-op", ""
 		}
 		specs, err := parseTaskSpecs(head[1])
+		if head[0] == "ptasks" {
+			specs, err = parsePTaskSpecs(head[1])
+		}
 		if err != nil {
 			return "bad-op", ""
 		}
@@ -741,7 +862,7 @@ func runOp(line string) (res string, trace string) {
 			return opTasks(specs, "rnd", seed)
 		}
 		return "bad-op", ""
-	case "sched", "stress", "overlap", "rounds":
+	case "sched", "stress", "overlap", "rounds", "parties":
 		if len(head) != 2 {
 			return "bad-op", ""
 		}
@@ -776,6 +897,17 @@ func runOp(line string) (res string, trace string) {
 				return "bad-op", ""
 			}
 			return opOverlap(maps, n)
+		case "parties":
+			f := strings.Fields(arg)
+			if len(f) != 2 {
+				return "bad-op", ""
+			}
+			nA, e1 := strconv.Atoi(f[0])
+			nB, e2 := strconv.Atoi(f[1])
+			if e1 != nil || e2 != nil || nA < 1 || nB < 0 || nA+nB > len(maps) {
+				return "bad-op", ""
+			}
+			return opParties(maps, nA, nB)
 		default:
 			return opRounds(maps)
 		}
@@ -812,7 +944,7 @@ func drive(tracePath string) {
 			continue
 		}
 		res, trace := runOp(line)
-		if strings.Contains(res, "hang") || strings.Contains(res, "!timeout") {
+		if strings.Contains(res, "hang") || strings.Contains(res, "!timeout") || strings.Contains(res, "serialised:") {
 			hangs++
 		}
 		fmt.Fprintln(out, res)
@@ -944,6 +1076,94 @@ func genOverlap(r *hx.Rand) string {
 	return fmt.Sprintf("overlap %s | %d", holdersText(maps), k)
 }
 
+// genParties: nA holders that stay inside, nB waiters that each conflict with one of them (and sometimes with
+// each other), then late-comers that are compatible with everybody: their names are private, or shared names
+// that every party only reads.  Most maps have two or more rows; private names sort before, between and after
+// the contended ones, so a waiter is parked on its first, a middle or its last row and holds what came before.
+func genParties(r *hx.Rand) string {
+	nA, nB, nC := 1+r.Intn(3), 1+r.Intn(4), 1+r.Intn(3)
+	shared := []string{"m0", "m1"}[:r.Intn(3)]
+	priv := 0
+	private := func(rows []row, max int) []row {
+		for k := r.Intn(max + 1); k > 0; k-- {
+			rows = append(rows, row{fmt.Sprintf("%s%d", []string{"a", "n", "z"}[r.Intn(3)], priv), r.Intn(3) != 0})
+			priv++
+		}
+		return rows
+	}
+	reads := func(rows []row) []row {
+		for _, s := range shared {
+			if r.Intn(2) == 0 {
+				rows = append(rows, row{s, false})
+			}
+		}
+		return rows
+	}
+	shuffle := func(rows []row) []row {
+		for j := len(rows) - 1; j > 0; j-- {
+			x := r.Intn(j + 1)
+			rows[j], rows[x] = rows[x], rows[j]
+		}
+		return rows
+	}
+	var maps [][]row
+	xw := make([]bool, nA)
+	for i := 0; i < nA; i++ {
+		xw[i] = r.Intn(3) != 0
+		maps = append(maps, private(reads([]row{{fmt.Sprintf("x%d", i), xw[i]}}), 2))
+	}
+	for i := 0; i < nA; i++ { // a contended name that is only read may be read by the other first holders too
+		if !xw[i] {
+			for j := 0; j < nA; j++ {
+				if j != i && r.Intn(4) == 0 {
+					maps[j] = append(maps[j], row{fmt.Sprintf("x%d", i), false})
+				}
+			}
+		}
+	}
+	for j := 0; j < nB; j++ {
+		i := r.Intn(nA)
+		rows := []row{{fmt.Sprintf("x%d", i), !xw[i] || r.Intn(2) == 0}}
+		if r.Intn(3) == 0 {
+			rows = append(rows, row{fmt.Sprintf("y%d", r.Intn(2)), r.Intn(2) == 0})
+		}
+		rows = private(reads(rows), 2)
+		if len(rows) == 1 && r.Intn(6) != 0 {
+			rows = private(rows, 0)
+			rows = append(rows, row{fmt.Sprintf("z%d", priv), true})
+			priv++
+		}
+		maps = append(maps, rows)
+	}
+	for l := 0; l < nC; l++ {
+		rows := private(reads(nil), 3)
+		if len(rows) < 2 && r.Intn(6) != 0 {
+			rows = append(rows, row{fmt.Sprintf("a%d", priv), true}, row{fmt.Sprintf("z%d", priv+1), r.Intn(2) == 0})
+			priv += 2
+		}
+		maps = append(maps, rows)
+	}
+	for i := range maps {
+		maps[i] = shuffle(maps[i])
+	}
+	return fmt.Sprintf("parties %s | %d %d", holdersText(maps), nA, nB)
+}
+
+// partiesFamily: the deterministic three-(and more)-party cases the oracle always runs
+var partiesFamily = []string{
+	"parties x:w;x:w,y:w;p:w,q:w | 1 1",         // holder of x, a waiter for {x,y}, a late-comer on {p,q}
+	"parties x:w;y:w,x:w;y2:w,w:w | 1 1",        // the late-comer's names sort around the waiter's
+	"parties x:w;a:w,x:w;x:r,z:w;p:w,q:w | 1 2", // two waiters, the first holds a, the second reads x
+	"parties m:r,x:w;m:r,x:w,z:w;m:r,q:w | 1 1", // everybody reads m: read-only overlap with holder and waiter
+	"parties x:r;x:w,z:w;p:w,q:r | 1 1",         // the waiter is a writer that has announced itself behind a reader
+	"parties x:r;x:w,z:w;p:w,q:r;c:w,d:w | 1 1", // … and two late-comers
+	"parties m:r,x0:w;x1:r;b:w,x0:r;x1:w,y:w;x0:w,y:w;m:r,p:w;q:w,r:w | 2 3",
+	"parties x:w;x:w,y:w;p:w | 1 1", // single-entry late-comer
+	"parties x:w;x:w;p:w,q:w | 1 1", // single-entry waiter
+	"parties x:w;a1:w,x:w;a2:w,x:w;a3:w,x:w;a4:w,x:w;p:w,q:w;r:w,s:r;t:r,u:r | 1 4",
+	"parties k:w,x:w;j:w,k:w,l:w,x:w;i:r,j2:r,m:r | 1 1",
+}
+
 var lockAtoms = []string{"a", "b", "res1", "_x", "A9", "@a", "@g_1", "@", "1a", "a-b", "", " ", "a b", "é", "@@a", "a@", "é", "\xff"}
 var lockPads = []string{"", "", "", "", " ", "\t", "\n", "  ", " \n\t"}
 
@@ -985,6 +1205,8 @@ func genLocks(r *hx.Rand) string {
 
 func genOne(r *hx.Rand) string {
 	switch x := r.Intn(100); {
+	case x < 6:
+		return genParties(r)
 	case x < 40:
 		return genSched(r)
 	case x < 60:
@@ -1040,9 +1262,24 @@ func oracle(n int) {
 			out.Flush()
 		}
 	}
+	for _, op := range partiesFamily {
+		if fails >= maxHangs {
+			break
+		}
+		res, _ := runOp(op)
+		counts["parties"]++
+		counts["parties_family"]++
+		if res != "fin" {
+			fails++
+			fmt.Fprintf(out, "FAIL %s => %s\n", op, res)
+			out.Flush()
+		}
+	}
 	for i := 0; i < n; i++ {
 		var op string
 		switch x := r.Intn(10); {
+		case x < 2:
+			op = genParties(r)
 		case x < 5:
 			op = genStress(r)
 		case x < 7:
@@ -1062,7 +1299,8 @@ func oracle(n int) {
 			}
 		}
 	}
-	fmt.Fprintf(out, "oracle cases=%d fails=%d stress=%d overlap=%d rounds=%d\n", n, fails, counts["stress"], counts["overlap"], counts["rounds"])
+	fmt.Fprintf(out, "oracle cases=%d fails=%d stress=%d overlap=%d rounds=%d parties=%d parties_family=%d bigmaps=%d\n",
+		n+counts["bigmaps"]+counts["parties_family"], fails, counts["stress"], counts["overlap"], counts["rounds"], counts["parties"], counts["parties_family"], counts["bigmaps"])
 }
 
 // ---------------------------------------------------------------------------------------------
@@ -1255,8 +1493,15 @@ func main() {
 		for k := 0; k < advVariants; k++ {
 			fmt.Fprintln(out, genTasksAdv(k))
 		}
+		for k := 0; k < len(ptasksFamily); k++ {
+			fmt.Fprintln(out, genPTasksAdv(k))
+		}
 		for i := 0; i < n; i++ {
-			fmt.Fprintln(out, genTasksRnd(r))
+			if i%4 == 3 {
+				fmt.Fprintln(out, genPTasksRnd(r))
+			} else {
+				fmt.Fprintln(out, genTasksRnd(r))
+			}
 		}
 		out.Flush()
 	case "tasksoracle":
